@@ -31,7 +31,7 @@ pub struct GCfg {
 /// (source chain, message id) pairs; ("ab","c") / ("a","bc") split the same
 /// characters differently between chain and id; the first two share the id on
 /// different chains.
-pub const IDS: [(&str, &str); 7] = [
+pub const IDS: [(&str, &str); 9] = [
     ("avalanche", "0xaa-0"),
     ("ethereum", "0xaa-0"),
     ("ethereum", "0xaa-1"),
@@ -39,6 +39,9 @@ pub const IDS: [(&str, &str); 7] = [
     ("ab", "c"),
     ("a", "bc"),
     ("", "x"),
+    // two long ids that differ only in their last character (beyond any 32- or 64-byte prefix)
+    ("ethereum", "0xaaaaaaaaaaaaaaaaaaaaaaaaaaaaaaaaaaaaaaaaaaaaaaaaaaaaaaaaaaaaaaaaaaaaaaaaaaaaaaaa-1"),
+    ("ethereum", "0xaaaaaaaaaaaaaaaaaaaaaaaaaaaaaaaaaaaaaaaaaaaaaaaaaaaaaaaaaaaaaaaaaaaaaaaaaaaaaaaa-2"),
 ];
 pub const SRCS: [&str; 3] = [
     "0x4EFE356BEDeCC817cb89B4E9b796dB8bC188DC59",
